@@ -26,6 +26,7 @@ Modelled rather than verified, and why it is harmless here:
 -/
 import Compass.Model.Search
 import Compass.Gen.Decisions
+import Compass.Gen.FnsC03
 import Compass.Proofs.Num
 import Compass.Model.Instance
 import Mathlib.Tactic.IntervalCases
@@ -1177,6 +1178,34 @@ source's `tentative_gscore < existing_gscore`; with `<=` an equal-cost arrival r
 theorem src_relax_improves {α : Type} [Field α] [LinearOrder α] [IsStrictOrderedRing α] [Lit α] [LawfulLit α] (tent ex : α) :
     some (improves tent (some ex)) = relax_improves.num tent ex := by
   simp [improves, relax_improves, Rel.num]
+
+
+/-! ### Generated function bodies
+
+`tools/gen_fns.py` re-translates the body of the Rust function on every run into `Compass/Gen/FnsC03.lean`
+(conventions in the header of the tool).  Each `gen_*_eq` theorem below says that the generated definition
+*is* the hand-written model function the property theorems are about.  A source change to the function
+changes the generated definition and the proof stops checking (a body the translator no longer recognises is
+not emitted: the theorem no longer elaborates). -/
+
+/-- the source's `bearing_to_destination` (with `start_heading`, `end_heading`, the `i32` clamp and the narrowing
+`as i16`, a two's-complement wrap that the clamp makes the identity) is the model's `bearing` followed by the
+clamp the model leaves out (`clampI16`, harmless for its only consumer: `turnOfAngle_clamp`) -/
+theorem gen_bearing_to_destination_eq (src dst : Int × Option Int) :
+    Gen.EdgeHeading_bearing_to_destination src dst = clampI16 (bearing src dst) := by
+  have hb : ∀ x : Int, -32768 ≤ x → x ≤ 32767 → Int.bmod x 65536 = x := by
+    intro x h1 h2
+    unfold Int.bmod
+    simp only [Nat.cast_ofNat]
+    split_ifs <;> omega
+  have hc : ∀ x : Int, (if x < -32768 then -32768 else if x > 32767 then 32767 else x) = clampI16 x := by
+    intro x
+    unfold clampI16
+    split_ifs <;> omega
+  have key : Gen.EdgeHeading_bearing_to_destination src dst =
+      Int.bmod (if bearing src dst < -32768 then -32768 else if bearing src dst > 32767 then 32767
+        else bearing src dst) 65536 := rfl
+  rw [key, hc, hb _ (by unfold clampI16; omega) (by unfold clampI16; omega)]
 
 end C03
 end Compass
